@@ -20,7 +20,8 @@ BATCH_TIMEOUT = {"quick": 300, "thorough": 1200}
 RULE = (
     "cases = handshake-centred scenarios: loss / duplication / reordering of the flights, spoofed-source copies of the client's "
     "first datagrams arriving from third-party addresses, certificate chain with and without intermediates, independent "
-    "max_datagram_size on both sides in {1200,1201,1252,1350,1452,1500}, early client data, client rebinding mid-connection. "
+    "max_datagram_size on both sides in {1200,1201,1252,1350,1452,1500}, early client data, client rebinding mid-connection; 30% of the cases resume a "
+    "session with 0-RTT client data (up to a congestion window of it) and a server application answering with 0.5-RTT data before the handshake completes. "
     "non-trivial = a run in which the server sent at least one datagram to a not-yet-validated address; distinct = hash(size "
     "configuration, chain, fate multiset, spoof/migration pattern)."
 )
@@ -29,7 +30,7 @@ ASSUMPTIONS = [
     "a PATH_RESPONSE echoing a PATH_CHALLENGE the server sent to that address was delivered",
     "'received' counts every byte of every datagram the simulator handed to the endpoint with that source address, including "
     "corrupted and spoofed ones",
-    "Retry, 0-RTT and tokens are not exercised by this check yet",
+    "0-RTT packets never validate an address (only Handshake packets and PATH_RESPONSE do); Retry and address-validation tokens are not exercised by this check yet",
 ]
 
 
@@ -80,6 +81,18 @@ def gen_case(seed):
         # data written before the handshake completes (fills the congestion window as soon as keys exist)
         script.append({"t": 0.0, "side": "client", "op": "write", "sid": 40, "n": rng.choice([5000, 40000]), "fin": True})
         script.sort(key=lambda o: o["t"])
+    r2 = random.Random("c13-0rtt/%s" % seed)
+    if r2.random() < 0.3:
+        # session resumption with 0-RTT: early client data (possibly a congestion window full of it) and a
+        # server application that answers it before the handshake completes (0.5-RTT data) — the server
+        # then has far more than 3x the received bytes to send to an address it has not validated yet
+        opts["resume"] = {}
+        script.append({"t": 0.0, "side": "client", "op": "write", "sid": 44, "n": r2.choice([100, 5000, 40000]), "fin": r2.random() < 0.5})
+        if r2.random() < 0.7:
+            script.append({"t": 0.0, "side": "server", "op": "write", "sid": 44, "n": r2.choice([5000, 40000, 200000]), "fin": True,
+                           "early": True, "wait_stream": True})
+        script.sort(key=lambda o: o["t"])
+        pattern += "+0rtt"
     return {"seed": seed, "opts": opts, "fates": fates, "script": script, "horizon": min(fates["adv_seconds"], 40.0) + 60.0, "pattern": pattern}
 
 
@@ -98,6 +111,9 @@ def run_batch(batch):
                            sig_extra=(sc["pattern"], sc["opts"]["mds_client"], sc["opts"]["mds_server"], sc["opts"].get("certfile"), sc["opts"].get("cert_kind")))
         res.maxc("max_sent_over_received_x100_unvalidated", em.max_ratio_x100)
         res.count("pattern_" + sc["pattern"])
+        if "+0rtt" in sc["pattern"]:
+            res.count("runs_0rtt_server_sent_before_handshake_complete", 1 if getattr(em, "server_sent_before_hs", 0) else 0)
+            res.count("runs_0rtt_accepted", 1 if any(getattr(e, "early_data_accepted", False) for _t, e in sim.client.events) else 0)
         if ok:
             res.sample({"seed": seed, "pattern": sc["pattern"], "opts": sc["opts"], "fates": dict(sim.fates.counts), "datagrams_checked": em.datagrams_checked,
                         "initial_datagrams": em.initial_datagrams, "unvalidated_sends": em.unvalidated_sends, "max_ratio_x100": em.max_ratio_x100,
